@@ -100,6 +100,23 @@ static int block_id_of(const SU_vector& v) {
   return i < 0 ? 0 : ledger[i].id;
 }
 
+// every const query entry point of the shared, frozen solver (plain, averaging, explicit-buffer overloads)
+static std::string query_all(const SU_vector& op, int t, int r) {
+  double x = 1.0 + 0.37 * ((t + 2 * r) % 5);
+  std::vector<bool> avr1(3), avr2(3), avr3(3);
+  SQuIDS::expectationValueDBuffer buf(3);
+  double e[7];
+  e[0] = shared->GetExpectationValue(op, 0, (t + r) % shared->Get_nx());
+  e[1] = shared->GetExpectationValue(op, 0, (t + r) % shared->Get_nx(), 1e9, avr1);
+  e[2] = shared->GetExpectationValueD(op, 0, x);
+  e[3] = shared->GetExpectationValueD(op, 0, x, 1e9, avr2);
+  e[4] = shared->GetExpectationValueD(op, 0, x, buf);
+  e[5] = shared->GetExpectationValueD(op, 0, x, buf, 0.05 + 0.1 * (r % 3), avr3);
+  SU_vector mid = shared->GetIntermediateState(0, 1.5 + 0.25 * (r % 4));
+  e[6] = (double)shared->Get_i(1.0 + 0.5 * ((t + r) % 9));
+  return "exp " + hex(digest(e, 7)) + hex(digest(&mid[0], mid.Size()));
+}
+
 // phase A of round r on logical thread t: local algebra, matrix exponential, send
 static void phase_a(int t, int r, int n, unsigned seed, std::vector<SU_vector>& pool, Results& res) {
   unsigned d = 2 + (t + r) % 5;
@@ -150,10 +167,7 @@ static void phase_b(int t, int r, int n, std::vector<SU_vector>& pool, Results& 
   in = SU_vector();     // release the block allocated by the sender on this thread
   unsigned d = shared->GetParams().electron + 3;   // = 3 (just a const read of the shared object)
   SU_vector op = SU_vector::Projector(d, (t + r) % d);
-  double e1 = shared->GetExpectationValue(op, 0, (t + r) % shared->Get_nx());
-  double e2 = shared->GetExpectationValueD(op, 0, 1.0 + 0.37 * ((t + 2 * r) % 5));
-  SU_vector mid = shared->GetIntermediateState(0, 1.5 + 0.25 * (r % 4));
-  res.r.push_back("exp " + hex(digest(&e1, 1)) + hex(digest(&e2, 1)) + hex(digest(&mid[0], mid.Size())));
+  res.r.push_back(query_all(op, t, r));
   pool.clear();
 }
 
@@ -166,7 +180,10 @@ int main(int argc, char** argv) {
   shared = new FrozenSolver(6, 3);
   for (int i = 0; i < n; i++) queues.push_back(new Queue());
   std::vector<Results> res(n);
+  Results qres;
+  SU_vector* qop = new SU_vector(SU_vector::Projector(3, 1));
   if (mode == "ref") {
+    for (int r = 0; r < rounds * 8; r++) qres.r.push_back(query_all(*qop, n, r));
     std::vector<std::vector<SU_vector>> pools(n);
     for (int r = 0; r < rounds; r++) {
       for (int t = 0; t < n; t++) phase_a(t, r, n, seed, pools[t], res[t]);
@@ -180,6 +197,18 @@ int main(int argc, char** argv) {
         std::vector<SU_vector> pool;
         for (int r = 0; r < rounds; r++) { phase_a(t, r, n, seed, pool, res[t]); phase_b(t, r, n, pool, res[t]); }
       });
+    // one more worker whose ONLY library activity is const queries on the shared solver (operators built by main)
+    std::thread qonly([&] {
+      my_tid = n + 1;
+      for (int r = 0; r < rounds * 8; r++) qres.r.push_back(query_all(*qop, n, r));
+    });
+    qonly.join();
+    if (tracing) {
+      std::lock_guard<std::mutex> g(logm);
+      std::string left;
+      for (int id = 1; id <= MAXB; id++) if (used[id] && cached_by[id] == n + 1) left += (left.empty() ? "" : ",") + std::to_string(id);
+      logv.push_back("{\"e\":\"Exit\",\"t\":" + std::to_string(n + 1) + ",\"left\":[" + left + "]}");
+    }
     for (int t = 0; t < n; t++) {
       ths[t].join();
       if (tracing) {
@@ -192,6 +221,7 @@ int main(int argc, char** argv) {
   }
   for (auto& l : logv) puts(l.c_str());
   for (int t = 0; t < n; t++) for (size_t k = 0; k < res[t].r.size(); k++) printf("RES %d %zu %s\n", t, k, res[t].r[k].c_str());
+  for (size_t k = 0; k < qres.r.size(); k++) printf("RES %d %zu %s\n", n, k, qres.r[k].c_str());
   puts("DONE");
   fflush(stdout);
   _exit(0);
